@@ -43,6 +43,11 @@ CHECKS = {
             'Random thresholds and streams of up to 600 (quick) / 3000 (thorough) additions through add, update(iterable), update(mapping), update(**counts) and mixed forms, including bucket-aligned adversarial plans (groups of w//m fresh keys seen m times, then fresh singletons) that keep the most keys alive. An exact collections.Counter is kept beside the counter: total, no over-count, under-count <= floor(total/floor(1/threshold)), presence, common+uncommon == total, items/keys/values/elements/most_common(n) consistency and descending order, and the size clause are checked (all keys around every compaction boundary and every 7th call, touched keys otherwise). The size clause len <= 2/threshold is genuinely false for lossy counting (known finding, replayed on every run); it is only excused while the tracked key set is exactly what textbook lossy counting tracks for the stream, anything else (mis-timed or skipped compaction) is still a violation.',
             'Trusts collections.Counter and a 12-line textbook lossy-counting reference (used only to classify the known size finding).',
             'DESIGN.md section 2, C20'),
+    'C18': ('exploration',
+            'differential testing: one Hypothesis-generated file-operation history run in lock-step on io.BytesIO/io.StringIO and on spooled files at 6 max_size values (rolled early / mid-way / never); MultiFileReader vs slicing the concatenation',
+            'Random histories (appending writes, read(n)/read(), readline, readlines, next/iteration, seek, tell, getvalue, len, rollover) over contents with 1-4 byte UTF-8 characters and all line endings are executed on the io object and on Spooled*IO objects with max_size in {1, 2, len/2, len, len+1, 10^6}; return values, tell() and getvalue() must equal the io object (observation after each step is itself varied all/tell/none because getvalue() seeks and flushes and can mask defects). MultiFileReader: contents partitioned into 1-5 members (BytesIO/StringIO/real files, empty members) read by sized/unsized reads and seek(0) against a cursor over the concatenation; mixed bytes/text must raise ValueError. Known finding: SpooledStringIO line reading follows codecs (splits at every str.splitlines boundary) - excused only when the result equals exactly the codecs-style split and all variants agree.',
+            'Trusts io.BytesIO/io.StringIO as reference; SpooledStringIO.readline(size), readline(0) and non-appending writes are outside the generated domain.',
+            'DESIGN.md section 2, C18'),
 }
 
 NOT_YET = 'check not built yet in this revision of /verif (work in progress; see DESIGN.md section 8)'
